@@ -1,5 +1,88 @@
-/- C08 — theorems under construction. -/
-import BEI.Model.App
+/-
+  C08 — A new context ignores inputs that were already held when it was created, until the input it names has been
+  physically inactive at least once (D6 fix: the test reads the physical state, not the consumed / UI-masked reading).
+-/
+import BEI.Proofs.Update
 namespace BEI.Props.C08
-theorem placeholder_true : True := trivial
+open BEI
+
+/-- a binding as `InputBind::new` creates it is under suppression; `context_instance` is called again by a rebuild, so
+    every binding of a rebuilt instance starts suppressed as well -/
+theorem fresh_binding_ignored (i : Input) : ({ input := i } : InputBind).ignored = true := rfl
+
+/-- the suppression test reads only the physical input and the gamepad selection: consumption by other actions and
+    the UI mask cannot lift it (D6) -/
+theorem physical_only (r r' : Reader) (h1 : r.raw = r'.raw) (h2 : r.device = r'.device) (i : Input) :
+    r.activeUnconsumed i = r'.activeUnconsumed i := by
+  cases i <;> simp [Reader.activeUnconsumed, Reader.modsDown, Reader.findPad, h1, h2]
+
+/-- what "the input it names is active" means for keyboard / mouse bindings: the key (button, non-zero delta) together
+    with, for every required modifier, its left or right variant -/
+theorem active_key (r : Reader) (k : Nat) (m : ModKeys) :
+    r.activeUnconsumed (.key k m) = (r.raw.keys.contains k && m.keyPairs.all (fun p => r.raw.keys.contains p.1 || r.raw.keys.contains p.2)) := rfl
+
+/-- (1) while suppressed and still physically active: the binding contributes nothing, none of its modifiers or
+    conditions is driven, and it is left exactly as it was -/
+theorem suppressed_skips (r : Reader) (av : ActionsView) (t : Tick) (b : InputBind)
+    (h1 : b.ignored = true) (h2 : r.activeUnconsumed b.input = true) :
+    evalInput r av t b = (b, none, []) := by
+  simp [evalInput, h1, h2]
+
+/-- (2) at the first evaluation at which the input is physically inactive the suppression ends, and from then on the
+    binding behaves exactly like a binding that was never suppressed -/
+theorem release_lifts (r : Reader) (av : ActionsView) (t : Tick) (b : InputBind) (h2 : r.activeUnconsumed b.input = false) :
+    evalInput r av t b = evalInput r av t { b with ignored := false }
+    ∧ (evalInput r av t b).1.ignored = false
+    ∧ (evalInput r av t b).2.1.isSome := by
+  simp [evalInput, h2]
+
+theorem unsuppressed_stays (r : Reader) (av : ActionsView) (t : Tick) (b : InputBind) (h : b.ignored = false) :
+    (evalInput r av t b).1.ignored = false ∧ (evalInput r av t b).2.1.isSome := by
+  simp [evalInput, h]
+
+/-- one frame as the binding sees it -/
+abbrev Frame := Reader × ActionsView × Tick
+
+/-- the binding after a history of frames -/
+def runBinding (b : InputBind) (fs : List Frame) : InputBind :=
+  fs.foldl (fun b f => (evalInput f.1 f.2.1 f.2.2 b).1) b
+
+/-- (3) for **every** history: as long as the input has been physically active at every evaluation since creation, the
+    binding is untouched (no machine stepped) and contributes nothing in any of those frames -/
+theorem ignored_while_held (b : InputBind) (hb : b.ignored = true) (fs : List Frame)
+    (hheld : ∀ f ∈ fs, f.1.activeUnconsumed b.input = true) :
+    runBinding b fs = b ∧ ∀ f ∈ fs, (evalInput f.1 f.2.1 f.2.2 b).2.1 = none ∧ (evalInput f.1 f.2.1 f.2.2 b).2.2 = [] := by
+  induction fs with
+  | nil => exact ⟨rfl, by simp⟩
+  | cons f rest ih =>
+    have hf := suppressed_skips f.1 f.2.1 f.2.2 b hb (hheld f (by simp))
+    obtain ⟨ih1, ih2⟩ := ih (fun g hg => hheld g (by simp [hg]))
+    constructor
+    · simp only [runBinding, List.foldl_cons, hf]
+      exact ih1
+    · intro g hg
+      rcases List.mem_cons.mp hg with rfl | hg
+      · simp [hf]
+      · exact ih2 g hg
+
+/-- (4) after the first inactive frame the history continues exactly as for a never-suppressed binding:
+    held … held, released, then anything -/
+theorem after_release (b : InputBind) (hb : b.ignored = true) (held : List Frame) (rel : Frame) (later : List Frame)
+    (hheld : ∀ f ∈ held, f.1.activeUnconsumed b.input = true) (hrel : rel.1.activeUnconsumed b.input = false) :
+    runBinding b (held ++ rel :: later) = runBinding { b with ignored := false } (rel :: later) := by
+  have h1 := (ignored_while_held b hb held hheld).1
+  simp only [runBinding, List.foldl_append, List.foldl_cons] at h1 ⊢
+  rw [h1, (release_lifts rel.1 rel.2.1 rel.2.2 b hrel).1]
+
+/-- input identity is preserved by evaluation, so "the input it names" is the same along the whole history -/
+theorem evalInput_input (r : Reader) (av : ActionsView) (t : Tick) (b : InputBind) : (evalInput r av t b).1.input = b.input := by
+  unfold evalInput; split <;> rfl
+
+/-- non-vacuity: key held at creation, consumed by someone else this frame (reads zero!) — still suppressed -/
+example :
+    let b : InputBind := { input := .key 0 {} }
+    let r : Reader := { raw := { keys := [0] }, consumed := { keys := [0] } }
+    r.value b.input = .bool false ∧ (evalInput r [] ⟨0, 1⟩ b).2.1.isNone = true := by
+  decide
+
 end BEI.Props.C08
